@@ -83,6 +83,11 @@ func c09Main(r *run.Runner) {
 	}
 	lits = append(lits, "9223372036854775807", "9223372036854775808", "18446744073709551615", "18446744073709551616", "0x7fffffffffffffff", "0x8000000000000000", "0xffffffffffffffff", "0x10000000000000000", "0x00000000000000000001")
 	bounds["boundary_literals"] = len(lits)
+	wides := wideTexts(r.Thorough())
+	r.Sweep("wide-sources", int64(len(wides)), func(w *run.Worker, item int64) {
+		c09One(w, wides[item])
+		c09One(w, strings.ReplaceAll(wides[item], " ", "\t"))
+	})
 	r.Sweep("boundary-literals", int64(len(lits)), func(w *run.Worker, item int64) {
 		c09One(w, lits[item])
 		c09One(w, "a=="+lits[item]+";")
